@@ -29,6 +29,9 @@ func (p *Prog) inScope(fn *ssa.Function) bool {
 	if fn == nil || fn.Blocks == nil {
 		return false
 	}
+	if p.isWrapper[fn] {
+		return true
+	}
 	pk := fnPkg(fn)
 	return pk == p.LibSSA || pk == p.CLISSA
 }
